@@ -790,6 +790,14 @@ func escapes(v ssa.Value, d int) (string, ssa.Instruction) {
 			if b, ok := x.Call.Value.(*ssa.Builtin); ok && (b.Name() == "len" || b.Name() == "cap") {
 				continue
 			}
+			// the package-level functions of bytes/strings/utf8 read their operands
+			// and keep no reference to them
+			if f, ok := x.Call.Value.(*ssa.Function); ok && f.Pkg != nil && f.Signature.Recv() == nil {
+				switch f.Pkg.Pkg.Path() {
+				case "bytes", "strings", "unicode/utf8":
+					continue
+				}
+			}
 			return "argument of " + Callee(x), x
 		case *ssa.MapUpdate:
 			if x.Map == v {
